@@ -343,10 +343,20 @@ class Cond:
         self.tree = lhs if rhs is None else ["-", lhs, rhs]
         self.nf = pa.from_tree(self.tree)
         self.fluents = pa.fluents(self.tree)
+        self._err = {}
 
     def value(self, val):
         """lhs - rhs (exact) or None where some division is by zero"""
         return pa.eval_tree(self.tree, val)
+
+    def err_nf(self, r, hidden_units=True):
+        """(N, D, EN, ED) of lhs - rhs with every numeral uncertain by r (pa.from_tree_with_error);
+        hidden_units: a term without numerals counts as 1 * term"""
+        key = (r, hidden_units)
+        if key not in self._err:
+            self._err[key] = pa.from_tree_with_error(
+                pa.with_unit_factors(self.tree) if r and hidden_units else self.tree, r)
+        return self._err[key]
 
     def text(self):
         if self.op is None:
@@ -438,21 +448,21 @@ class Judgement:
         exact_first = exact_space and representable([n1, d1], d)
         self.exact_expected = exact_first
         for r in ([Fraction(0)] if exact_first else []) + [radius(d)]:
-            got = self._fit(r, r)
+            got = self._fit(r)
             if got is not None:
                 self.mode = "exact" if r == 0 else "rounded"
                 self.scale = got
                 return
 
-    def _fit(self, r, unit, keep=True):
-        """Is the output the input times a scale, if every numeral of the output may be off by r (and
-        every fluent carries a hidden factor 1 that may be off by `unit`)?"""
+    def _fit(self, r, keep=True, hidden_units=True):
+        """Is the output the input times a scale, if every numeral of the output (including a factor 1
+        left out of a term without numerals) may be off by r?"""
         inp, out = self.inp, self.out
         n1, d1 = inp.nf
-        n2, d2, en, ed = pa.from_tree_with_error(out.tree, r, unit)
+        n2, d2, en, ed = out.err_nf(r, hidden_units)
         a, b = pa.p_mul(n1, d2), pa.p_mul(n2, d1)
         e1, e2 = pa.p_mul(en, pa.p_abs(d1)), pa.p_mul(pa.p_abs(n1), ed)
-        floor = max(r, unit)
+        floor = r
         if inp.op is None:
             got = pa.feasible_scale(a, b, e1, e2, fixed=1, floor=floor)
         else:
@@ -472,7 +482,7 @@ class Judgement:
 
     def explained_by_truncation(self):
         """Would the output fit if numerals had been cut to integers (error < 1) instead of rounded?"""
-        return self._fit(Fraction(1), radius(self.d), keep=False) is not None
+        return self._fit(Fraction(1), keep=False, hidden_units=False) is not None
 
     def coefficient_ok(self):
         return self.mode is not None
@@ -792,8 +802,7 @@ def judge_set(ctx: Ctx, entry, inputs, got, d, exact_space):
     # truth line on the conjunction
     out_err = []
     for o in outs:
-        n2, d2, en, ed = pa.from_tree_with_error(o.tree, rad)
-        out_err.append((n2, d2, en, ed))
+        out_err.append(o.err_nf(rad))
     judged = skipped = 0
     for val in grid_points(fluents):
         vin = [c.value(val) for c in inputs]
